@@ -115,7 +115,13 @@ func (c *reconnectClient) Connect(ctx context.Context, clientID string, opts ...
 								c.options.PingInterval,
 								c.options.Timeout,
 							); err != nil {
-								c.Client().SetErrorOnce(err)
+								select {
+								case <-ctxKeepAlive.Done():
+									// The connection is already finished; nothing to report.
+									return
+								default:
+								}
+								baseCli.SetErrorOnce(err)
 								// The client should close the connection if PINGRESP is not returned.
 								// MQTT 3.1.1 spec. 3.1.2.10
 								baseCli.Close()
